@@ -34,7 +34,7 @@ impl Monitor for C09 {
         "C09"
     }
     fn rule(&self) -> String {
-        "case = one reservation (Q,D,P). The first cases enumerate ALL 1<=Q<=D<=P<=Pmax (Pmax=6 quick, 9 thorough): for every window length up to 3P+2 the minimum service over all budget placements (every size-Q subset of the first D slots, independently per period; for P<=3 additionally the joint product over all periods) and all window starts is compared for equality with provided_service, for Constrained(Q,D,P) and, when D=P, Periodic(Q,P); service_time (specialised and trait-default) is compared with a linear scan. Remaining cases: random (Q,D,P) with P up to 300 (thorough 5000), same checks on sampled window lengths plus random concrete placements. Non-trivial = (Q<D or D<P) and a compared window spans >= 2 periods; distinct = distinct (Q,D,P,kind).".to_string()
+        "case = one reservation (Q,D,P). The first cases enumerate ALL 1<=Q<=D<=P<=Pmax (Pmax=6 quick, 9 thorough): for every window length up to 3P+2 the minimum service over all budget placements (every size-Q subset of the first D slots, independently per period; for P<=3 additionally the joint product over all periods) and all window starts is compared for equality with provided_service, for Constrained(Q,D,P) and, when D=P, Periodic(Q,P); service_time (specialised and trait-default) is compared with a linear scan. Remaining cases: random (Q,D,P) with P up to 2000 (thorough 20000), same checks on sampled window lengths plus random concrete placements. Non-trivial = (Q<D or D<P) and a compared window spans >= 2 periods; distinct = distinct (Q,D,P,kind).".to_string()
     }
     fn assumptions(&self) -> Vec<String> {
         vec![
@@ -45,8 +45,8 @@ impl Monitor for C09 {
     fn cases(&self, tier: Tier) -> u64 {
         small_triples(pmax(tier)).len() as u64
             + match tier {
-                Tier::Quick => 1500,
-                Tier::Thorough => 40000,
+                Tier::Quick => 20_000,
+                Tier::Thorough => 400_000,
             }
     }
     fn exhaustive(&self, _tier: Tier) -> bool {
@@ -65,8 +65,8 @@ impl Monitor for C09 {
             (q, d, p, true)
         } else {
             let pm = match tier {
-                Tier::Quick => 300,
-                Tier::Thorough => 5000,
+                Tier::Quick => 2000,
+                Tier::Thorough => 20_000,
             };
             let p = rng.log_range(1, pm);
             let d = match rng.range(0, 3) {
